@@ -564,18 +564,18 @@ def val_with_cursor(alg, e, env, pvar):
 
 def run(ctx):
     db = ctx.db
-    check_element_maps(ctx, db)
-    check_placement(ctx, db)
-    check_signs(ctx, db)
-    check_length_fields(ctx, db)
-    check_affine_algebra(ctx, db)
+    ctx.attempt(check_element_maps, ctx, db)
+    ctx.attempt(check_placement, ctx, db)
+    ctx.attempt(check_signs, ctx, db)
+    ctx.attempt(check_length_fields, ctx, db)
+    ctx.attempt(check_affine_algebra, ctx, db)
     from . import C08   # RobustPath keeps its transform as a matrix: the matrix methods are C08's obligations, shared
-    C08.check_trafo_algebra(ctx, db)
+    ctx.attempt(C08.check_trafo_algebra, ctx, db)
     # Repetition::transform (C10.5) — same obligations as C11
-    C11.check_transform(ctx, db)
-    C11.check_transform_algebra(ctx, db)
+    ctx.attempt(C11.check_transform, ctx, db)
+    ctx.attempt(C11.check_transform_algebra, ctx, db)
     f = db.fn('gdstk::Repetition::transform')
-    tables.check_exhaustive(ctx, db, f, C11.RT, frozen_default={('gdstk::Repetition::transform', 0): ['Rectangular', 'Regular', 'Explicit', 'ExplicitX', 'ExplicitY']})
+    ctx.attempt(tables.check_exhaustive, ctx, db, f, C11.RT, frozen_default={('gdstk::Repetition::transform', 0): ['Rectangular', 'Regular', 'Explicit', 'ExplicitX', 'ExplicitY']})
 
 
 MANIFEST = dict(
